@@ -1,9 +1,49 @@
 import Driver.Util
-open Lean
+import Torf.Spec.Missing
+open Lean Torf Torf.Missing
 namespace Driver.C10
 
-/-- ops of property C10: `c10.<name>` -/
-def handle (op : String) (_j : Json) : Except String Json :=
-  throw s!"unknown op {op}"
+/-- disk states per file: "ok" | "missing" | Nat (actual size differing from the recorded one).
+    Content of a present file = the first `actual` elements of an (infinite) per-file element
+    sequence `file * 2^40 + offset`. -/
+def mkDisk (sizes : List Nat) (states : List Json) : Except String (List (Option (List Nat))) :=
+  (sizes.zip states).zipIdx.mapM fun ((sz, st), i) =>
+    match st with
+    | .str "ok" => pure (some ((List.range sz).map fun k => i * elemBase + k))
+    | .str "missing" => pure none
+    | .num n => pure (some ((List.range n.mantissa.toNat).map fun k => i * elemBase + k))
+    | _ => throw "bad disk state"
+
+def kindStr : ErrKind → String | .read => "read" | .size => "size"
+
+def itemJson (it : Item Nat) : Json :=
+  jobj [("data", jopt pieceJson it.data),
+        ("excs", jarr (it.excs.map fun (k, e) => jarr [jnat k, jstr (kindStr e)]))]
+
+/-- op `c10.items` : {L, sizes, disk} ↦ model items, whether they meet the strict / lenient
+    spec, hyp (no bad empty entry), d10a (bad empty entry at a piece boundary) -/
+def items (j : Json) : Except String Json := do
+  let L ← getNat j "L"
+  let sizes ← getNats j "sizes"
+  let states ← getArr j "disk"
+  let disk ← mkDisk sizes states
+  let model := iterItems L sizes disk
+  let want := specData L sizes disk
+  return jobj [
+    ("model", match model with
+      | none => Json.null
+      | some its => jarr (its.map itemJson)),
+    ("strict", jbool (match model with | none => false | some its => MeetsSpec L sizes disk its)),
+    ("lenient", jbool (match model with | none => false | some its => MeetsSpecLenient L sizes disk its)),
+    ("specData", jarr (want.map (jopt pieceJson))),
+    ("bad", jarr ((badFiles sizes disk).map fun (k, e) => jarr [jnat k, jstr (kindStr e)])),
+    ("mayBlank", jarr ((List.range want.length).map fun i => jbool (mayBlank L sizes disk i))),
+    ("hyp", jbool (L > 0 && NoBadEmpty sizes disk)),
+    ("d10a", jbool (BadEmptyAtBoundary L sizes disk))]
+
+def handle (op : String) (j : Json) : Except String Json :=
+  match op with
+  | "c10.items" => items j
+  | _ => throw s!"unknown op {op}"
 
 end Driver.C10
